@@ -186,6 +186,11 @@ func (x *xl) calleeMonadic(c *ast.CallExpr) bool {
 		if b, ok := x.p.info.Uses[id].(*types.Builtin); ok && b.Name() == "panic" {
 			return true
 		}
+		if b, ok := x.p.info.Uses[id].(*types.Builtin); ok && b.Name() == "make" && len(c.Args) == 2 {
+			if tv := x.p.info.Types[c.Args[1]]; tv.Value == nil || constant.Sign(tv.Value) != 0 {
+				return true
+			}
+		}
 	}
 	fn := x.calleeFunc(c)
 	if fn == nil {
@@ -295,7 +300,8 @@ func (x *xl) expr(e ast.Expr) ([]string, string, error) {
 			// &x of a local variable: pointer identity is not modelled (translate_rec.go)
 			if id, ok := y.X.(*ast.Ident); ok {
 				if v, ok := info.Uses[id].(*types.Var); ok && !v.IsField() && v.Parent() != v.Pkg().Scope() {
-					if _, ok := v.Type().Underlying().(*types.Basic); ok {
+					switch v.Type().Underlying().(type) {
+					case *types.Basic, *types.Slice: // slices have value semantics in the model
 						return b, "(some " + s + ")", nil
 					}
 				}
@@ -681,7 +687,20 @@ func (x *xl) call(c *ast.CallExpr) ([]string, string, error) {
 						return nil, "[]", nil
 					}
 				}
-				return nil, "", x.errf(c, "make other than make([]T, 0)")
+				if sl, ok := x.typeOf(c).Underlying().(*types.Slice); ok && len(c.Args) == 2 {
+					// make([]T, n): n zero values, panic for n < 0 (GoPrelude makeL)
+					z, err := x.zeroOf(c, sl.Elem())
+					if err != nil {
+						return nil, "", err
+					}
+					bs, n, err := x.expr(c.Args[1])
+					if err != nil {
+						return nil, "", err
+					}
+					bs, t := x.bindTmp(bs, fmt.Sprintf("Go.makeL %s %s", z, n))
+					return bs, t, nil
+				}
+				return nil, "", x.errf(c, "make other than make([]T, n)")
 			case "panic":
 				// the argument is evaluated first (it may itself panic), its value is not modelled
 				bs, _, err := x.exprs(c.Args)
